@@ -190,7 +190,10 @@ func init() {
 		case string:
 			return toValues(Tokenize(s))
 		case symStr:
-			return tokenizeRope(s)
+			if c, ok := s.norm().(string); ok {
+				return toValues(Tokenize(c))
+			}
+			return tokenizeRope(s.norm().(symStr))
 		}
 		panic(engineError{"verifTokens"})
 	}
